@@ -502,6 +502,71 @@ def reordered(run):
         run.traces_validated += 1
 
 
+def function_positions(run):
+    """Every function position a reference can occupy, with UNPREFIXED references, written identically on three sheets of the same
+    layout and different data: the reference denotes cells of the formula's OWN sheet - on every sheet, in both translation orders."""
+    forms = ['=SUM(A1:C3)', '=AVERAGE(B1:B3)', '=MIN(A1:C3)', '=MAX(B1:C3)', '=COUNT(A1:C4)', '=COUNTBLANK(A1:C4)', '=SUMIF(A1:A3,">15",B1:B3)',
+             '=SUMIFS(C1:C3,A1:A3,">5",B1:B3,">0")', '=COUNTIFS(B1:B3,">0",A1:A3,"<25")', '=AVERAGEIFS(C1:C3,A1:A3,">15")', '=VLOOKUP(20,A1:C3,2,FALSE)',
+             '=MATCH(30,A1:A3,0)', '=XMATCH(20,A1:A3)', '=INDEX(A1:C3,2,3)', '=AND(A1>0,B1>0)', '=OR(A1>25,B3<0)', '=IF(B2>0,C2,A2)', '=IFERROR(B1/A1,0)',
+             '=ROUND(B2/A2,2)', '=B1&"-"&C1', '=CONCATENATE(A1,B1)', '=COLUMN(B1)+A1', '=SUM(A:A)', '=SUM(B1:B3)/COUNT(B1:B3)', '=A1=B1', '=LEFT(D1,2)&RIGHT(D1,1)',
+             '=SEARCH("e",D1)', '=MID(D1,2,2)']
+    titles = ['Jan', 'Feb', 'Mar']
+    sheets, want = [], []
+    for si, t in enumerate(titles):
+        k = 100 * (si + 1)
+        a = [10, 20, 30]
+        b = [k + 1, k + 2, k + 3]
+        c = [k + 11, k + 12, k + 13]
+        d = ['alpha', 'beta', 'gamma'][si]
+        cells = {}
+        for r in range(3):
+            cells[(0, r)], cells[(1, r)], cells[(2, r)] = a[r], b[r], c[r]
+        cells[(3, 0)] = d
+        for i, f in enumerate(forms):
+            cells[(6, i)] = f
+        sheets.append((t, cells))
+        allv = a + b + c
+        want.append([sum(allv), sum(b) / 3, min(allv), max(b + c), 9, 3, b[1] + b[2], sum(c), 2, (c[1] + c[2]) / 2, b[1], 3, 2, c[1], True, False, c[1], b[0] / 10,
+                     round(b[1] / 20, 2), f'{b[0]}-{c[0]}', f'10{b[0]}', 2 + 10, 60, sum(b) / 3, False, d[:2] + d[-1:], d.index('e') + 1 if 'e' in d else '#VALUE!', d[1:3]])
+    for order in ('file', 'last_sheet_first'):
+        excel = repo.mem_excel(sheets)
+        try:
+            if order == 'file':
+                klass = repo.load_class(repo.translate_file(excel)[0])
+            else:
+                ctx = Context()
+                ctx._titles = excel.get_titles()
+                ctx._sheets_size = excel.get_sheets_size()
+                for si in (2, 0, 1):
+                    for i in range(len(forms)):
+                        CellTranslator.translate(Cell(si, 6, i), excel, ctx)
+                klass = repo.load_class(ctx.build_class())
+            ex = repo.fresh_executor(klass)
+            got = []
+            for si in range(3):
+                row = []
+                for i in range(len(forms)):
+                    try:
+                        row.append(ex.get_cell(Cell(si, 6, i)).value)
+                    except Exception as e:  # noqa
+                        row.append(f'raises {type(e).__name__}')
+                got.append(row)
+        except Exception as e:   # noqa
+            got = f'raises {type(e).__name__}: {e}'[:160]
+
+        def same(g, w):
+            if isinstance(w, bool) or isinstance(g, bool):
+                return g is w
+            if isinstance(w, float):
+                return isinstance(g, (int, float)) and abs(g - w) < 1e-9
+            return g == w
+        bad = got if not isinstance(got, list) else [(titles[si], forms[i], got[si][i], want[si][i]) for si in range(3) for i in range(len(forms)) if not same(got[si][i], want[si][i])]
+        run.judge({'in': {'formulas': forms, 'sheets': titles, 'order': order}, 'obs': str(bad)[:500], 'kind': 'function_positions'}, not bad,
+                  clause=f'the same unprefixed formulas on the sheets {titles} (translation order: {order}): (sheet, formula, got, expected) {bad}', part='function_positions')
+        run.traces_validated += 1
+        run.evaluations += 3 * len(forms)
+
+
 def check(run):
     run.rule = ('structured references enumerated by TLC (prefix none / word / quoted word / quoted titles x $ markers x columns A..XFD x rows 1..99999 x cell, row, '
                 'column, rectangle and whole-column areas x own sheet), printed, parsed back and denoted by the specification; each read through =ref, '
@@ -511,6 +576,7 @@ def check(run):
     gen(run)
     unknown_titles(run)
     reordered(run)
+    function_positions(run)
     trace(run)
     public_path(run)
 
@@ -519,6 +585,9 @@ def replay(run, case):
     i = case['in']
     if case.get('kind') == 'reordered':
         reordered(run)
+        return
+    if case.get('kind') == 'function_positions':
+        function_positions(run)
         return
     if 'rec' in i:
         job = _near_job if i['kind'] == 'NEAR' else _wcol_job
